@@ -236,7 +236,7 @@ class FuncSpec:
         self.key = key
         self.engines = ['E2']
         self.inline = False
-        self.requires = []; self.ensures = []; self.exits_iff = None
+        self.requires = []; self.ensures = []; self.exits_iff = None; self.valid_iff = None
         self.assigns = None           # None = derive (nothing for const methods), list of X otherwise
         self.ghosts = []              # (type, name)
         self.loops = {}
@@ -249,19 +249,20 @@ class FuncSpec:
         self.notes = []
         self.unroll = {}
         self.uses = []
+        self.uses_post = []
         self.ghost_state = []
 
 
 class Lemma:
     def __init__(self, name, params):
         self.name = name; self.params = params; self.requires = []; self.ensures = []; self.file = None
-        self.options = {}
+        self.options = {}; self.uses = []; self.uses_post = []
 
 
 class Relation:
     def __init__(self, name, key):
         self.name = name; self.key = key; self.requires = []; self.ensures = []; self.file = None
-        self.options = {}; self.uses = []; self.ghosts = []; self.callbacks = {}; self.share = []
+        self.options = {}; self.uses = []; self.uses_post = []; self.ghosts = []; self.callbacks = {}; self.share = []
 
 
 class SpecFn:
@@ -403,6 +404,9 @@ class SpecDB:
                 elif head == 'ensures':
                     loop = None
                     ctx.ensures.append(Clause('ensures', self.expand(parse_expr(rest)), rest, engines, label, ln))
+                elif head == 'valid_iff':
+                    ctx.valid_iff = Clause('valid_iff', self.expand(parse_expr(rest)), rest, engines, label, ln)
+                    ctx.exits_iff = Clause('exits_iff', X('un', op='!', e=ctx.valid_iff.expr), '!(' + rest + ')', engines, label, ln)
                 elif head == 'exits_iff':
                     ctx.exits_iff = Clause('exits_iff', self.expand(parse_expr(rest)), rest, engines, label, ln)
                 elif head == 'assigns':
@@ -428,10 +432,16 @@ class SpecDB:
                     m = re.match(r'^(\w+)\s*>=\s*(.*)$', rest)
                     if not m: raise SpecError('induction VAR >= LOWER expected')
                     ctx.options['induction'] = (m.group(1), self.expand(parse_expr(m.group(2))))
-                elif head == 'use':
+                elif head in ('use', 'use_post'):
+                    cond = None
+                    if ' when ' in rest:
+                        rest, _, ctext = rest.partition(' when ')
+                        cond = self.expand(parse_expr(ctext))
                     c = self.expand(parse_expr(rest))
                     if c.k != 'call': raise SpecError('use LEMMA(args) expected')
-                    (loop.uses if loop is not None else ctx.uses).append(c)
+                    c.when = cond
+                    if head == 'use_post': ctx.uses_post.append(c)
+                    else: (loop.uses if loop is not None else ctx.uses).append(c)
                 elif head == 'note':
                     ctx.notes.append(rest)
                 else:
